@@ -273,6 +273,55 @@ pub fn run(ctx: &mut Ctx) {
         }
     }
 
+    // 2b. exhaustive over the SAN grammar's own shapes (position-dependent entry points):
+    //     pawn captures and pushes with every promotion spelling, piece moves with every hint shape
+    if !miri {
+        let files = ["a", "b", "c", "d", "e", "f", "g", "h"];
+        let ranks = ["1", "2", "3", "4", "5", "6", "7", "8"];
+        let mut fam: Vec<String> = Vec::new();
+        for f in files {
+            for g in files {
+                for r in ranks {
+                    for pr in ["", "=Q", "N", "=K", "R+", "=B#"] {
+                        fam.push(format!("{}x{}{}{}", f, g, r, pr));
+                    }
+                }
+            }
+            for r in ranks {
+                for pr in ["=Q", "N", "=R", "B", "=K"] {
+                    fam.push(format!("{}{}{}", f, r, pr));
+                }
+            }
+        }
+        for pc in ["N", "B", "R", "Q", "K"] {
+            for hf in ["", "a", "e", "h"] {
+                for hr in ["", "1", "4", "8"] {
+                    for x in ["", "x"] {
+                        for f in files {
+                            for r in ranks {
+                                fam.push(format!("{}{}{}{}{}{}", pc, hf, hr, x, f, r));
+                            }
+                        }
+                    }
+                }
+            }
+        }
+        let thin = if ctx.tier == crate::ctx::Tier::Quick { 2 } else { 1 };
+        let mut k = 0u64;
+        for (i, t) in fam.iter().enumerate() {
+            if !ctx.mine(i as u64) {
+                continue;
+            }
+            k += 1;
+            if k % thin != 0 {
+                continue;
+            }
+            check_text(ctx, &env, t, 4, if ctx.tier == crate::ctx::Tier::Quick { 8 } else { npos });
+            ctx.nontrivial(t.as_bytes());
+        }
+        ctx.feature_n("san_grammar_family_texts", k / thin);
+    }
+
     // 3. valid texts, their truncations, multi-byte splices and mutations
     let mut valid_fen: Vec<String> = POS_FENS.iter().map(|s| s.to_string()).collect();
     valid_fen.extend(gentext::FEN_VARIANTS.iter().map(|s| s.to_string()));
